@@ -262,6 +262,10 @@ fn pair(a: Val, b: Val) -> Val {
     Val::P(Box::new(a), Box::new(b))
 }
 
+/// `GenomeScorer` applied to a population whose members are NOT individuals of the type it makes
+/// (any population type is accepted) is an optional flavour: without it such cases are skipped.
+#[allow(dead_code)]
+const UNSUPPORTED: &str = "flavour not built: GenomeScorer on a foreign population";
 pub const LEAF_KINDS: [&str; 7] = ["probe", "mutate", "mutate_ref", "recombine", "recombine_ref", "mutate_dyn", "recombine_dyn"];
 
 fn build(e: &Value, kind: &str) -> DynOp {
@@ -311,6 +315,9 @@ fn build(e: &Value, kind: &str) -> DynOp {
             let ind = as_individual(x);
             GenomeExtractor.apply(&ind, &mut r).map_err(|e| match e {})
         })),
+        #[cfg(not(feature = "optional_flavours"))]
+        "scorer" => panic!("{UNSUPPORTED}"),
+        #[cfg(feature = "optional_flavours")]
         "scorer" => {
             let scorer = FnScorer(|g: &Val| {
                 SCORED.with(|l| l.borrow_mut().push(val_to(g)));
@@ -412,7 +419,7 @@ pub fn run_case(case: &Value, kind: &str, seed: u64) -> Value {
             Err(e) => json!({"ok": false, "v": {"k": "i", "v": 0}, "path": path_of(e), "log": log, "words": words, "scored": scored}),
         }
     });
-    r.unwrap_or_else(|m| json!({"panic": m}))
+    r.unwrap_or_else(|m| if m.contains(UNSUPPORTED) { json!({"skipped": true}) } else { json!({"panic": m}) })
 }
 
 pub fn replay(args: &[String]) -> i32 {
@@ -425,6 +432,9 @@ pub fn replay(args: &[String]) -> i32 {
         for kind in kinds {
             n += 1;
             let ob = run_case(&c["case"], kind, ci as u64);
+            if ob.get("skipped").is_some() {
+                continue;
+            }
             if ob != c["exp"] {
                 bad += 1;
                 out.line(&json!({"kind": "mismatch", "case": c, "leaf_kind": kind, "observed": ob}));
@@ -530,7 +540,11 @@ pub fn trace(args: &[String]) -> i32 {
         let (e, _) = gen(&mut rng, 5, &insh, &mut ids);
         let x = value_of_shape(&insh, &mut rng);
         // number of leaf calls without failure, to aim failAt inside the run half of the time
-        let total = run_case(&json!({"e": e, "x": x, "failAt": 0}), "probe", run)["log"].as_array().map_or(0, Vec::len) as u64;
+        let dry = run_case(&json!({"e": e, "x": x, "failAt": 0}), "probe", run);
+        if dry.get("skipped").is_some() {
+            continue;
+        }
+        let total = dry["log"].as_array().map_or(0, Vec::len) as u64;
         if total > 60 {
             continue;
         }
@@ -538,6 +552,9 @@ pub fn trace(args: &[String]) -> i32 {
         let kind = LEAF_KINDS[rng.random_range(0..7)];
         let case = json!({"e": e, "x": x, "failAt": fail_at});
         let ob = run_case(&case, kind, run);
+        if ob.get("skipped").is_some() {
+            continue;
+        }
         out.line(&json!({"ev": "apply", "run": run, "case": case, "leaf_kind": kind, "res": ob}));
     }
     out.finish();
